@@ -32,5 +32,8 @@ Sh(B, n) ==
 \* decrypt_subject; the replayer assembles them by hiding the subject while adding)
 NodeSubjectNodes(B, n) ==
   {Node(s, {a}) : s \in {x \in ShUpTo(B, n - 4) : IsNode(x)}, a \in AL(B, 3)}
+\* nodes one of whose assertions carries an assertion of its own (e.g. a salted or
+\* annotated assertion)
+Decorated(B) == {Node(s, {Node(Assn(p, o), {Assn(p2, o2)})}) : s \in B, p \in B, o \in B, p2 \in B, o2 \in B}
 ShUpTo(B, n) == IF n = 0 THEN {} ELSE Sh(B, n) \cup ShUpTo(B, n - 1)
 =============================================================================
